@@ -196,7 +196,7 @@ def mask_and_shift_from_lowest_one_bit (u : UInt64) : Option (UInt64 × Int) := 
   let shift : Int := u64Tz u
   pure ((← u64Shl (1 : UInt64) shift), shift)
 
-/-- `const fn get_active_and_passive(&self) ->(&PlayerState, &PlayerState)` in `impl Bitboard` (board/src/board.rs:1078).
+/-- `const fn get_active_and_passive(&self) ->(&PlayerState, &PlayerState)` in `impl Bitboard` (board/src/board.rs:1070).
 * `white` = field `self.white: PlayerState`
 * `black` = field `self.black: PlayerState`
 * `turn` = field `self.turn: u32`
@@ -207,7 +207,7 @@ def Bitboard.get_active_and_passive (white : Inkayaku.Rs.PlayerState) (black : I
   else do
     pure (black, white)
 
-/-- `while` loop of `_is_occupancy_in_check` (board/src/board.rs:860).  Reads: color_bits : u32, passive : PlayerState, full_occupancy : u64, ROOK_MAGICS_get_attacks : Int → UInt64 → UInt64, BISHOP_MAGICS_get_attacks : Int → UInt64 → UInt64, KNIGHT_NONMAGICS_get_attacks : Int → UInt64, WHITE_PAWN_NONMAGICS_get_attacks : Int → UInt64, BLACK_PAWN_NONMAGICS_get_attacks : Int → UInt64, KING_NONMAGICS_get_attacks : Int → UInt64.  State: king_occupancy : u64.  `none` = panic or out of fuel; `Ctl.ret r` = the function returned `r` from inside the loop, `Ctl.next s` = the loop ended. -/
+/-- `while` loop of `_is_occupancy_in_check` (board/src/board.rs:852).  Reads: color_bits : u32, passive : PlayerState, full_occupancy : u64, ROOK_MAGICS_get_attacks : Int → UInt64 → UInt64, BISHOP_MAGICS_get_attacks : Int → UInt64 → UInt64, KNIGHT_NONMAGICS_get_attacks : Int → UInt64, WHITE_PAWN_NONMAGICS_get_attacks : Int → UInt64, BLACK_PAWN_NONMAGICS_get_attacks : Int → UInt64, KING_NONMAGICS_get_attacks : Int → UInt64.  State: king_occupancy : u64.  `none` = panic or out of fuel; `Ctl.ret r` = the function returned `r` from inside the loop, `Ctl.next s` = the loop ended. -/
 def Bitboard._is_occupancy_in_check.while_1 (color_bits : Int) (passive : Inkayaku.Rs.PlayerState) (full_occupancy : UInt64) (ROOK_MAGICS_get_attacks : Int → UInt64 → UInt64) (BISHOP_MAGICS_get_attacks : Int → UInt64 → UInt64) (KNIGHT_NONMAGICS_get_attacks : Int → UInt64) (WHITE_PAWN_NONMAGICS_get_attacks : Int → UInt64) (BLACK_PAWN_NONMAGICS_get_attacks : Int → UInt64) (KING_NONMAGICS_get_attacks : Int → UInt64) : Nat → UInt64 → Option (Ctl Bool (UInt64))
   | 0, _ => none
   | fuel + 1, king_occupancy =>
@@ -220,7 +220,7 @@ def Bitboard._is_occupancy_in_check.while_1 (color_bits : Int) (passive : Inkaya
         Bitboard._is_occupancy_in_check.while_1 color_bits passive full_occupancy ROOK_MAGICS_get_attacks BISHOP_MAGICS_get_attacks KNIGHT_NONMAGICS_get_attacks WHITE_PAWN_NONMAGICS_get_attacks BLACK_PAWN_NONMAGICS_get_attacks KING_NONMAGICS_get_attacks fuel king_occupancy
     else pure (Ctl.next king_occupancy)
 
-/-- `fn _is_occupancy_in_check(color_bits: ColorBits, passive: &PlayerState, full_occupancy: OccupancyBits, mut king_occupancy: OccupancyBits) -> bool` in `impl Bitboard` (board/src/board.rs:859).
+/-- `fn _is_occupancy_in_check(color_bits: ColorBits, passive: &PlayerState, full_occupancy: OccupancyBits, mut king_occupancy: OccupancyBits) -> bool` in `impl Bitboard` (board/src/board.rs:851).
 * `color_bits` = parameter `color_bits: u32`
 * `passive` = parameter `passive: PlayerState`
 * `full_occupancy` = parameter `full_occupancy: u64`
